@@ -149,6 +149,20 @@ def gen():
     if "pubconstINVALID:WordId=WordId::from_raw(0xffff_ffff);" not in _norm(w):
         raise F.FactError("WordId::INVALID is no longer 0xffff_ffff")
     out.append("Definition JOINED_INVALID : N := %s.\n" % F.coq_int(0xffffffff))
+    # ---- the public accessors through which a morpheme reports its dictionary
+    mo = F.strip_comments(F.src("sudachi/src/analysis/morpheme.rs"))
+    di = _norm(F.fn_body(mo, "dictionary_id", "analysis/morpheme.rs"))
+    if di != "letwid=self.word_id();ifwid.is_oov(){-1}else{wid.dic()asi32}":
+        raise F.FactError("Morpheme::dictionary_id is no longer `if word_id.is_oov() { -1 } else { word_id.dic() as i32 }`")
+    io = _norm(F.fn_body(mo, "is_oov", "analysis/morpheme.rs"))
+    if io != "self.word_id().is_oov()":
+        raise F.FactError("Morpheme::is_oov is no longer word_id().is_oov()")
+    wo = _norm(F.fn_body(w, "is_oov", "word_id.rs"))
+    m = re.fullmatch(r"self\.dic\(\)==(0x[0-9a-fA-F]+|\d+)", wo)
+    if not m:
+        raise F.FactError("WordId::is_oov is no longer `dic() == 0xf`")
+    out.append('Definition dictionary_id_shape : string := "oov->-1;else->dic".\n')
+    out.append("Definition IS_OOV_DIC : N := %s.\n" % F.coq_int(int(m.group(1), 0)))
     # ---- file based loading: every configured userDict entry is one dictionary of the stack, in order
     cf = F.strip_comments(F.src("sudachi/src/config.rs"))
     ru = _norm(F.fn_body(cf, "resolved_user_dicts", "config.rs"))
